@@ -10,16 +10,10 @@ def run(ctx):
     def extra(ctx):
         return gens.small_universe(ctx, sample=ctx.n(500, None)) + gens.prio_family(ctx, ctx.n(150, 1500))
 
-    def oracle(ap, obs, sc, r):
-        import projects
-        d, why = projects.compare_model(ap, obs)
-        if d:
-            return [{"what": "the implementation's schedule differs from the reference list scheduler", "disagreements": d[:4]}]
-        return []
     schedcheck.run(ctx, "C07", PROPS,
                    [("core", 150, 1500), ("coredeps", 100, 1000), ("limits", 60, 600), ("trees", 60, 500), ("hours", 60, 500)],
                    [],
                    ["the reference is Model/Sched.v extracted to OCaml; calendars are recomputed by the harness from the abstract project; the horizon (project end after the scheduler's extension) is an input taken from the run",
                     "core dialect: slot-aligned calendars, efforts that are whole slots at the resource's efficiency, gaps that are whole slots"],
                    "corpus first; every project of the bounded universe (3 leaf tasks x 2 resources x efforts of 1-2 slots x every dependency subset x two priorities x optional daily limit x optional leave = 16384 projects; thorough: all, quick: a sample of 500) and random core-dialect projects with nesting, teams, limits on resources/groups/tasks, calendars and zones; all dates of all tasks and all (task, resource, slot) bookings compared",
-                   extra_cases=extra, extra_oracle=oracle)
+                   extra_cases=extra, model_is_oracle=True)
